@@ -2,10 +2,13 @@
    arithmetics): a distribution over strict-ranking ballots credits candidates and the residual with exactly the
    ballots' multipliers -- for meek/warren (kw_meek / kw_warren) and for meek-prf.  the keep-factor update of meek/warren
    never leaves an elected candidate above 1 (fix F12; the lower bound fails under guarded guard>0, open finding K1); exits and equal-rank ballots:
-   values-scope correspondence + oracle (_partial). *)
-From Coq Require Import ZArith List Bool String PArith.
+   values-scope correspondence + oracle (_partial).
+   WHOLE RUNS (meek and warren, strict and equal-rank ballots, Fixed / integer / Guarded with any guard): every 'iterate'
+   snapshot a count records has tallies + residual = ballot papers cast (C08_every_iteration_conserves_votes_whole_run;
+   invariant MI and Hoare proof in Proofs/MeekRun.v, MeekCount.v). *)
+From Coq Require Import ZArith List Bool String PArith Lia.
 From Droop Require Import Model.KernelBase Model.Arith Model.Prelude Model.State Model.Prims Model.RulesMeek Model.Election
-  Proofs.Zlike Proofs.MeekDist Proofs.MeekKf.
+  Proofs.Zlike Proofs.MeekDist Proofs.MeekKf Proofs.ConserveCount Proofs.MeekRun Proofs.MeekCount.
 Import ListNotations.
 Open Scope Z_scope.
 
@@ -58,3 +61,42 @@ Example C08_former_k5_witness_within_range :
   | _ => False
   end.
 Proof. vm_compute. reflexivity. Qed.
+
+(* ---- whole runs (meek and warren: cfg is arbitrary but for the method) ----
+   In the history of a count that ends without a crash, every action tagged 'iterate' carries a snapshot whose votes total
+   (sum of the tallies of all non-withdrawn candidates) plus residual equals the number of ballot papers of the profile,
+   S = 10^p raw units per paper; strict and equal-rank ballots, any keep factors, any number of iterations and rounds. *)
+Theorem C08_every_iteration_conserves_votes_whole_run : forall A S (ZL : zlike A S) cfg, cf_method cfg = MMeek ->
+  forall pr fuel s k, wf_profile_m pr ->
+  exec (@crashed A) fuel (count_cmd A cfg RMeek) (init_state A cfg pr) = Some (s, k) -> k <> Abort ->
+  forall a sn, In a (actions s) -> a_tag a = TIterate -> a_snap a = Some sn ->
+  raw ZL (as_votes sn) + match as_nt sn with Some x => raw ZL x | None => 0 end = S * (ballot_total pr + eballot_total pr).
+Proof. exact count_meek_iterations. Qed.
+Print Assumptions C08_every_iteration_conserves_votes_whole_run.
+
+(* the hypotheses are satisfiable and the conclusion is not empty: a meek count of a well-formed profile with an
+   equal-rank ballot under Fixed(4) ends normally and records iterate actions with snapshots *)
+Definition c08_profile : profile :=
+  mkProfile 2 7 [mkPcand 1 1 1 "A" "1" false false; mkPcand 2 2 2 "B" "2" false false; mkPcand 3 3 3 "C" "3" false false;
+                 mkPcand 4 4 4 "D" "4" false true]
+            [(3, [1; 2]); (2, [2]); (1, [3; 2])] [(1, [[1; 3]; [2]])].
+Definition iterate_snaps (A : arith) (s : est A) : nat :=
+  List.length (filter (fun a => match a_tag a, a_snap a with TIterate, Some _ => true | _, _ => false end) (actions s)).
+Example C08_whole_run_nonvacuous :
+  wf_profile_m c08_profile /\ ballot_total c08_profile + eballot_total c08_profile = 7 /\
+  match exec (@crashed _) (2 ^ 12)%positive (count_cmd (Fixed 4 4) (mkConfig "meek" MMeek 2 7 false false true false 6) RMeek)
+             (init_state (Fixed 4 4) (mkConfig "meek" MMeek 2 7 false false true false 6) c08_profile) with
+  | Some (s, Next) => (2 <= iterate_snaps _ s)%nat
+  | _ => False end.
+Proof.
+  split; [|split; [reflexivity|vm_compute; repeat constructor]].
+  assert (Hc: forall c, In c [1; 2; 3] -> exists pc, In pc (pr_cands c08_profile) /\ pc_cid pc = c /\ pc_withdrawn pc = false).
+  { intros c Hc. cbn in Hc.
+    repeat (destruct Hc as [<-|Hc];
+            [first [exists (mkPcand 1 1 1 "A" "1" false false); split; [cbn; tauto|split; reflexivity]
+                   |exists (mkPcand 2 2 2 "B" "2" false false); split; [cbn; tauto|split; reflexivity]
+                   |exists (mkPcand 3 3 3 "C" "3" false false); split; [cbn; tauto|split; reflexivity]]|]); contradiction. }
+  split; [split; [repeat constructor; cbn; intuition (try discriminate; try lia)|]|].
+  - intros m r H. cbn in H. destruct H as [H|[H|[H|[]]]]; inversion H; subst; (split; [lia|]); intros c Hin; apply Hc; cbn in *; tauto.
+  - intros m r H g c Hg Hin. cbn in H. destruct H as [H|[]]. inversion H; subst. apply Hc. cbn in Hg. destruct Hg as [<-|[<-|[]]]; cbn in *; tauto.
+Qed.
